@@ -726,9 +726,12 @@ static void data_bar_print(FILE *fp,
                            const double acfval,
                            const uint16_t max_bar_width)
 {
-    cmb_assert_release((acfval >= -1.0) && (acfval <= 1.0));
+    cmb_assert_release(!isnan(acfval));
 
-    const double bar_width = (double)max_bar_width * fabs(acfval);
+    /* The estimate divides by the number of products at each lag, so it can
+     * exceed one in magnitude at the larger lags of a short series (and the
+     * PACFs derived from it likewise): draw a full bar, the number is printed */
+    const double bar_width = (double)max_bar_width * fmin(fabs(acfval), 1.0);
     const uint16_t num_filled = (uint16_t)floor(bar_width);
     cmb_assert_debug(num_filled <= max_bar_width);
     const double rem = bar_width - num_filled;
